@@ -560,6 +560,8 @@ def c12(res, tier, seed, replay):
                                 "lock order of the idle-unload goroutine as it was before the repair")
         expect_design_violation(res, "ShardMgr", "ShardMgr.noguard.cfg", "NeverOpenTwice",
                                 "repair without the 'only remove our own entry' guard")
+        expect_design_violation(res, "ShardMgr", "ShardMgr.deadentry.cfg", "AfterwardsLoadable",
+                                "the entry is put into the store before the shard file is opened: a failed open leaves a dead entry")
         n = 400 if tier == "quick" else 6000
         behs = vlib.tlc_simulate("ShardMgr", "ShardMgr.sim.cfg", n, 120, seed)
         res.coverage["behaviours_generated"] = len(behs)
